@@ -432,12 +432,27 @@ impl<R: Read + Seek> Seek for CompressionLayerReader<'_, R> {
         // Seeking may instantiate a decompressor, and therefore position the
         // inner layer at the end of the asked position's compressed block
         match &self.sizes_info {
-            Some(_sizes_info) => {
+            Some(sizes_info) => {
                 match pos {
                     SeekFrom::Start(pos) => {
                         // Find the right block
                         let inside_block = pos % u64::from(UNCOMPRESSED_DATA_SIZE);
                         let rounded_pos = pos - inside_block;
+
+                        if !self.pos_in_stream(rounded_pos) {
+                            // No block starts here: the only reachable position is the end of
+                            // a stream whose last block is full (or of an empty stream)
+                            if pos != sizes_info.max_uncompressed_pos() {
+                                return Err(Error::EndOfStream.into());
+                            }
+                            let old_state = std::mem::replace(
+                                &mut self.state,
+                                CompressionLayerReaderState::Empty,
+                            );
+                            self.state = CompressionLayerReaderState::Ready(old_state.into_inner());
+                            self.underlayer_pos = pos;
+                            return Ok(pos);
+                        }
 
                         // Move the underlayer at the start of the block
                         let old_state =
